@@ -52,6 +52,14 @@ fn check_id(id: u32, out: &mut CaseOut) {
         }),
         Err(e) => out.violate("C20", "parse_canonical_err", format!("try_from('{exp}') = Err({e})")),
     }
+    // the other parsing routes for a VALID rendering: From<String> and comparison with text
+    let via_string = guard(|| (HpoTermId::from(text.clone()).as_u32(), t == text.as_str(), t == *text.as_str()));
+    match via_string {
+        Ok((v, eq_ref, eq_str)) => out.check(v == id && eq_ref && eq_str, "C20", "from_string_roundtrip", || {
+            format!("id {id}: HpoTermId::from(String '{text}') = {v}, id == text: {eq_ref}/{eq_str}")
+        }),
+        Err(p) => out.violate("C20", "from_string_panics_on_rendering", format!("id {id}: {}", p.message)),
+    }
     let be = t.to_be_bytes();
     out.check(be == id.to_be_bytes(), "C20", "to_be_bytes", || format!("id {id}: to_be_bytes = {be:?}"));
     out.check(HpoTermId::from(id.to_be_bytes()).as_u32() == id, "C20", "from_be_bytes", || {
@@ -132,7 +140,7 @@ impl Monitor for C20 {
     }
     fn assumptions(&self) -> Vec<String> {
         vec![
-            "From<String> / PartialEq<&str> are documented-to-panic conveniences and not part of the property".into(),
+            "From<String> / PartialEq<&str> are only exercised on valid renderings (they are documented to panic on malformed text)".into(),
             "a leading '+' (accepted by Rust's u32 grammar) is not judged".into(),
         ]
     }
